@@ -10,13 +10,22 @@ class C09:
     def generate(rng, index, tier, mask, cache):
         oracle = lambda ops, k: engine.reference(ops, k, mask, cache)
         ops, refs, meta = gen.gen_c09(rng, oracle, index, tier)
+        meta["alt_sut"] = (tier == "thorough" and index % 2 == 0) or index % 8 == 3
         return {"ops": ops, "refs": refs, "meta": meta}
 
     @staticmethod
     def check(case, mask, cache):
         sut = procs.run_child(engine.child_all, (case["ops"],), shims=mask)
         div = engine.first_divergence(case["ops"], sut, case["refs"])
-        return {"divergence": div, "sut": sut, "checked": len(case["ops"])}
+        checked = len(case["ops"])
+        if div is None and case["meta"].get("alt_sut"):
+            # the same history in a second interpreter (other PYTHONHASHSEED) against the same references
+            alt = procs.alt_zygote(4242).call("child_all", [case["ops"], {}], shims=mask)
+            div = engine.first_divergence(case["ops"], alt, case["refs"])
+            if div is not None:
+                div["interpreter"] = "PYTHONHASHSEED=4242"
+            checked *= 2
+        return {"divergence": div, "sut": sut, "checked": checked}
 
     @staticmethod
     def check_raw(case, cache):
@@ -27,7 +36,12 @@ class C09:
 
     @staticmethod
     def recheck(ops, mask, cache):
-        div, _, _ = engine.evaluate(ops, mask, cache)
+        div, _, refs = engine.evaluate(ops, mask, cache)
+        if div is None:
+            alt = procs.alt_zygote(4242).call("child_all", [ops, {}], shims=mask)
+            div = engine.first_divergence(ops, alt, refs)
+            if div is not None:
+                div["interpreter"] = "PYTHONHASHSEED=4242"
         return div
 
     @staticmethod
